@@ -72,4 +72,21 @@ Inv_ResultComplete == (pc = "releasing" /\ outcome = "result") => (todo = 0 /\ w
 Inv_MemoryErrorOnlyOnFault == outcome = "MemoryError" => faultUsed
 \* number of allocation points (grow steps + the final decode) a run producing n characters passes
 AllocPoints(n) == (IF n <= BUF THEN 0 ELSE ((n - 1) \div BUF)) + 1
+
+\* ---------------------------------------------------------------- inductive invariant (checked unbounded by Apalache:
+\* spec/MC_WriterInd.tla, BUF = 8192, outputs up to 10^6; Init => IndInv and IndInv /\ Next => IndInv')
+IndInv == /\ TypeOK
+          /\ pos <= size /\ (pc # "idle" => written = pos) /\ runs >= 0 /\ runs <= MaxRuns /\ written >= 0
+          /\ (buf = "static" => size = BUF /\ liveHeap = 0)
+          /\ (buf = "heap" => liveHeap = 1 /\ size > BUF)
+          /\ (pc = "idle" => buf = "static" /\ liveHeap = 0 /\ pos = 0)
+          /\ ~freedStatic /\ ~freedTwice
+          /\ (outcome = "MemoryError" => faultUsed)
+          /\ (pc = "writing" => outcome = "none")
+          /\ ((pc = "releasing" /\ outcome = "result") => todo = 0)
+\* an assigning initial predicate for the inductive step: every variable from its type domain, constrained by IndInv
+IndInit == /\ pc \in {"idle", "writing", "releasing"} /\ buf \in {"static", "heap"} /\ outcome \in {"none", "result", "MemoryError"}
+           /\ size \in Int /\ pos \in Int /\ todo \in Int /\ liveHeap \in Int /\ runs \in Int /\ written \in Int
+           /\ freedStatic \in BOOLEAN /\ freedTwice \in BOOLEAN /\ faultUsed \in BOOLEAN
+           /\ IndInv
 =============================================================================
